@@ -470,9 +470,10 @@ func (r *Runtime) typedArrayProto_copyWithin(call FunctionCall) Value {
 		data := ta.viewedArrayBuf.data
 		offset := ta.offset
 		elemSize := ta.elemSize
-		if final > from {
+		// do not copy beyond the end of the array (which may be in the middle of the buffer)
+		if count := min(final-from, ta.length-to); count > 0 {
 			ta.viewedArrayBuf.ensureNotDetached(true)
-			copy(data[(offset+to)*elemSize:], data[(offset+from)*elemSize:(offset+final)*elemSize])
+			copy(data[(offset+to)*elemSize:(offset+to+count)*elemSize], data[(offset+from)*elemSize:(offset+from+count)*elemSize])
 		}
 		return call.This
 	}
